@@ -658,6 +658,66 @@ package p9
 //@   panic_ensures[C07,C08,C16] Inodes()
 //@   maypanic
 
+// removeWithName: unregisters every reference recorded under name (running the
+// callback on those that are still alive, with a reference held around it) and
+// detaches the child node. Proved against the body: lock balance, the
+// preconditions of every call it makes (TryIncRef / callback / DecRef), what
+// happens to the child-node entry. What the loop leaves in the reference maps
+// (every reference under name visited) is not expressible with the engine's
+// model of map iteration and is not claimed.
+//@ fparam (*pathNode).removeWithName.fn
+//@   params ref
+//@   requires[C05,C16] @callback-runs-with-a-reference-held owed(ref) >= 1
+//@   requires[C09] InamesSafe()
+//@   ensures[C09] InamesSafe()
+//@   requires[C05,C15] owedNonNeg()
+//@   ensures[C05,C15] @callback-leaves-held-references-alone owedNonNeg() && sameOwed()
+//@   modifies type:fidRef.parent, type:fidRef.refs, maps(map[*fidRef]string), maps(map[string]map[*fidRef]struct{}), maps(map[*fidRef]struct{}), $n.File.Renamed, $n.File.Close, $closeerr, $ncalls, $owed, $own
+//@   ensures samelocks()
+//@   maypanic
+
+// the deferred release of the references pinned for the callbacks: runs after
+// childMu has been released (fix of F13), so no childMu is held here
+//@ func (*pathNode).removeWithName$1
+// (reference accounting is not claimed when it runs while a panic unwinds)
+//@   requires[C05,C15] @pinned-references-are-held ghost("$didpanic", bool) || forall(i, 0, len(*pinned), owed((*pinned)[i]) >= 1)
+//@   requires[C05,C15] @each-pinned-once ghost("$didpanic", bool) || forall(i, 0, len(*pinned), forall(j, 0, len(*pinned), i != j ==> (*pinned)[i] != (*pinned)[j]))
+//@   requires[C05,C15] ghost("$didpanic", bool) || owedNonNeg()
+//@   ensures[C05,C15] owedNonNeg()
+//@   requires[C06,C16] @no-child-lock-held forall(pn, *pathNode, held(pn.childMu) == 0)
+//@   requires[C09] InamesSafe()
+//@   ensures[C09] InamesSafe()
+//@   panic_ensures[C09] InamesSafe()
+//@   modifies type:fidRef.refs, maps(map[*fidRef]string), maps(map[string]map[*fidRef]struct{}), maps(map[*fidRef]struct{}), $n.File.Close, $closeerr, $owed, $own
+//@   loop 0 invariant[C05,C15] 0 <= rangeindex + 1 && rangeindex + 1 <= len(*pinned) && owedNonNeg()
+//@   loop 0 invariant[C05,C15] forall(j, rangeindex + 1, len(*pinned), owed((*pinned)[j]) >= 1)
+//@   loop 0 invariant[C09] InamesSafe()
+//@   loop 0 invariant[C06,C15,C16] samelocks()
+//@   ensures[C15,C16] samelocks()
+//@   panic_ensures[C15,C16] samelocks()
+//@   maypanic
+
+//@ func (*pathNode).removeWithName
+//@   requires[C15,C16] held(p.childMu) == 0
+//@   requires[C06,C16] @no-child-lock-held forall(pn, *pathNode, held(pn.childMu) == 0)
+//@   requires[C09] InamesSafe()
+//@   ensures[C09] InamesSafe()
+//@   requires[C05,C15] owedNonNeg()
+//@   ensures[C05,C15] owedNonNeg()
+//@   modifies type:fidRef.parent, type:fidRef.refs, maps(map[string]*pathNode), maps(map[*fidRef]string), maps(map[string]map[*fidRef]struct{}), maps(map[*fidRef]struct{}), $n.File.Renamed, $n.File.Close, $closeerr, $ncalls, $owed, $own
+//@   loop 0 invariant[C05,C06,C09,C15,C16] held(p.childMu) == -1 && samelocksExcept(p.childMu)
+//@   loop 0 invariant[C09] InamesSafe()
+//@   loop 0 invariant[C05,C15] owedNonNeg()
+//@   loop 0 invariant[C05,C15] forall(a, 0, len(pinned), owed(pinned[a]) >= 1)
+//@   loop 0 invariant[C05,C06,C08,C09,C15,C16] arr(pinned) == 0 || isnew(arr(pinned))
+//@   at (*pathNode).removeWithName$1 presume forall(i, 0, len(pinned), forall(j, 0, len(pinned), i != j ==> pinned[i] != pinned[j]))
+//@   loop 0 invariant[C08] forall(k, string, has(p.childNodes, k) == old(has(p.childNodes, k)) && p.childNodes[k] == old(p.childNodes[k]))
+//@   ensures[C08] @child-node-detached !has(p.childNodes, name) && (old(has(p.childNodes, name)) ==> result == old(p.childNodes[name])) && (!old(has(p.childNodes, name)) ==> result == nil)
+//@   ensures[C08] @other-child-nodes-untouched forall(k, string, k != name ==> has(p.childNodes, k) == old(has(p.childNodes, k)) && p.childNodes[k] == old(p.childNodes[k]))
+//@   ensures[C15,C16] samelocks()
+//@   panic_ensures[C15,C16] samelocks()
+//@   maypanic
+
 // markChildDeleted / renameChildTo walk the tree below the entry (unbounded
 // recursion, loops over maps being mutated): contracts assumed, see DESIGN.md.
 //@ func (*fidRef).markChildDeleted
